@@ -118,6 +118,9 @@ pub struct Epoch {
     pub pid: i64,
     /// initial environment (the real environment is cleared first)
     pub env: Vec<(String, String)>,
+    /// extra command-line arguments of the epoch process (what `std::env::args()` shows the
+    /// macro: a compiler session is started with `--test`, `--edition=..`, `--cfg ..`, ...)
+    pub argv: Vec<String>,
     pub jobs: Vec<Job>,
     /// consumed one per scheduling event (point hit or job end); when the
     /// list is exhausted the answer is `Cont`
@@ -138,6 +141,7 @@ impl Epoch {
             "clock_s": self.clock_s,
             "pid": self.pid,
             "env": self.env.iter().map(|(k, v)| json!([k, v])).collect::<Vec<_>>(),
+            "argv": self.argv,
             "jobs": self.jobs.iter().map(|j| json!({"prog": j.prog, "thread": j.thread})).collect::<Vec<_>>(),
             "decisions": self.decisions.iter().map(|d| d.to_json()).collect::<Vec<_>>(),
         })
@@ -161,6 +165,7 @@ impl Epoch {
                         .collect()
                 })
                 .unwrap_or_default(),
+            argv: v["argv"].as_array().map(|a| a.iter().filter_map(|x| x.as_str().map(|s| s.to_string())).collect()).unwrap_or_default(),
             jobs: v["jobs"]
                 .as_array()
                 .map(|a| {
@@ -210,6 +215,7 @@ impl Plan {
                 clock_s,
                 pid: 1000 + (hash_seed % 30000) as i64,
                 env: vec![],
+                argv: vec![],
                 jobs: vec![Job { prog: 0, thread: 0 }],
                 decisions: vec![],
             }],
